@@ -462,14 +462,15 @@ fn clash_variant(case: &FunCase) -> Option<String> {
 /// numbers are process-global, so the program is compiled twice to learn the numbers the next
 /// compilation will draw, and then once more with names built from them.
 fn label_coincidence(acc: &mut Acc, wd: &mut Workdir) {
-    let src = |ctor: &str, ty2: &str, codata: bool| -> String {
+    // `c2` is the first constructor / destructor of the second type
+    let src = |ctor: &str, ty2: &str, c2: &str, codata: bool| -> String {
         if codata {
             format!(
-                "codata T {{ {ctor}: i64, b: i64 }}\ncodata {ty2} {{ c: i64, d: i64 }}\ndef f(n: i64): T {{ new {{ {ctor} => n, b => 2 }} }}\ndef g(n: i64): {ty2} {{ new {{ c => n, d => 4 }} }}\ndef main(): i64 {{ println_i64((f(1).{ctor}) + (g(3).d)); 0 }}\n"
+                "codata T {{ {ctor}: i64, b: i64 }}\ncodata {ty2} {{ {c2}: i64, d: i64 }}\ndef f(n: i64): T {{ new {{ {ctor} => n, b => 2 }} }}\ndef g(n: i64): {ty2} {{ new {{ {c2} => n, d => 4 }} }}\ndef main(): i64 {{ println_i64((f(1).{ctor}) + (g(3).d)); 0 }}\n"
             )
         } else {
             format!(
-                "data T {{ {ctor}, B }}\ndata {ty2} {{ C, D }}\ndef f(t: T): i64 {{ t.case {{ {ctor} => 1, B => 2 }} }}\ndef g(u: {ty2}): i64 {{ u.case {{ C => 3, D => 4 }} }}\ndef main(): i64 {{ println_i64(f({ctor}) + g(D)); 0 }}\n"
+                "data T {{ {ctor}, B }}\ndata {ty2} {{ {c2}, D }}\ndef f(t: T): i64 {{ t.case {{ {ctor} => 1, B => 2 }} }}\ndef g(u: {ty2}): i64 {{ u.case {{ {c2} => 3, D => 4 }} }}\ndef main(): i64 {{ println_i64(f({ctor}) + g(D)); 0 }}\n"
             )
         }
     };
@@ -491,13 +492,19 @@ fn label_coincidence(acc: &mut Acc, wd: &mut Workdir) {
         }
         Some((n1?, n2?))
     };
-    for codata in [false, true] {
-        let (c0, t0) = if codata { ("a_0", "T_0_a") } else { ("A_0", "T_0_A") };
+    // table label against entry label (`T_n1` + `A_n2` = `T_n1_A` + `n2`), then entry label against
+    // entry label (`T_n1` + `A_n2_Z` = `T_n1_A_n2` + `Z`)
+    for (codata, entries) in [(false, false), (true, false), (false, true), (true, true)] {
+        let (a, z, c) = if codata { ("a", "z", "c") } else { ("A", "Z", "C") };
+        let names = |n1: usize, n2: usize| -> (String, String, String) {
+            if entries { (format!("{a}_{n2}_{z}"), format!("T_{n1}_{a}"), z.to_string()) } else { (format!("{a}_{n2}"), format!("T_{n1}_{a}"), c.to_string()) }
+        };
+        let (c0, t0, c2) = names(0, 0);
         let mut seen = Vec::new();
         for _ in 0..2 {
-            let Ok(st) = stages(&src(c0, t0, codata)) else { return };
+            let Ok(st) = stages(&src(&c0, &t0, &c2, codata)) else { return };
             let Ok(asm) = pipeline::x86(st.linear) else { return };
-            let Some(n) = numbers(&asm.text, t0) else {
+            let Some(n) = numbers(&asm.text, &t0) else {
                 acc.count("label_coincidence_numbers_not_found");
                 return;
             };
@@ -505,11 +512,12 @@ fn label_coincidence(acc: &mut Acc, wd: &mut Workdir) {
         }
         let d = seen[1].0 - seen[0].0;
         let (n1, n2) = (seen[1].0 + d, seen[1].1 + d);
-        let (ctor, ty2) = if codata { (format!("a_{n2}"), format!("T_{n1}_a")) } else { (format!("A_{n2}"), format!("T_{n1}_A")) };
-        let text = src(&ctor, &ty2, codata);
+        let (ctor, ty2, c2) = names(n1, n2);
+        let text = src(&ctor, &ty2, &c2, codata);
         acc.evaluations += 1;
         acc.count("label_coincidence_programs");
-        judge(acc, wd, &text, &format!("table label {ty2}_{n2} aimed at the entry label T_{n1}_{ctor}"), true);
+        let what = if entries { format!("entry label {ty2}_{n2}_{c2} aimed at the entry label T_{n1}_{ctor}") } else { format!("table label {ty2}_{n2} aimed at the entry label T_{n1}_{ctor}") };
+        judge(acc, wd, &text, &what, true);
     }
 }
 
